@@ -65,6 +65,9 @@ def runner_hash(x):
 def run(ctx, spec):
     env.setup()
     cands = wlxml.shipped(env.REPO)
+    if spec.get('shard') == 1:
+        # the object table driven directly: 70 000 incarnations of one id (quick), 1 100 000 (thorough)
+        objcheck.deep_table(ctx, 70000 if ctx.tier == 'quick' else 1100000)
     if spec.get('shard') == 0:
         one(ctx, ctx.rng, cands, spec, WANT, deep=True)
     for i in range(spec['n']):
@@ -86,4 +89,6 @@ def finalize(m):
 
 def replay(ctx, case):
     env.setup()
+    if 'deep_table' in case:
+        return objcheck.deep_table(ctx, case['deep_table'])
     objcheck.replay_lines(ctx, case, WANT)
